@@ -122,7 +122,7 @@ def has_evex_row(o, rw, forms, names):
     (the validator accepts such ids for every signature: C01/C13's finding, not C12's question)"""
     for t in names.get(o["n"], []):
         f, r = forms[t - 1], rw[t - 1]
-        if r["pk"] != "E" or scope_of(r): continue
+        if r["pk"] != "E" or scope_of(r) or r["name"] != o["n"]: continue       # (vpand -> vpandd style promotion is not a row of this instruction)
         if not (f["arch"] == "ANY" or (f["arch"] == "X64") == (o["m"] == 64)): continue
         if len(f["ops"]) == len(o["ops"]) and all(op_fits(fo, x) for fo, x in zip(f["ops"], o["ops"])): return True
     return False
@@ -370,6 +370,10 @@ def run(ctx):
         raise Broken(f"only {len(obs)} observations in scope")
     ctx.log(f"{len(obs)} observations in scope (accepted by validate) of {len({o['f'] for o in obs})} DB rows; {dict(stats)} ({time.time()-t0:.0f}s)")
 
+    # the AArch64 leg is independent: judge it concurrently (its TLC run then does not queue behind the x86 shards)
+    a64_pool = concurrent.futures.ThreadPoolExecutor(max_workers=1)
+    a64_future = a64_pool.submit(run_a64, ctx, bdir, env)
+
     # ---- leg 2 execution ----------------------------------------------------------------------------------------
     obsp = ctx.path("obs.ndjson")
     vlib.write_ndjson(obsp, obs)
@@ -443,7 +447,8 @@ def run(ctx):
             ctx.violation(f"{key}: {len(items)} observation(s), e.g. {what}", rp)
 
     # ---- AArch64 register lists ---------------------------------------------------------------------------------
-    a64recs, a64groups, a64skipped = run_a64(ctx, bdir, env)
+    a64recs, a64groups, a64skipped = a64_future.result()
+    a64_pool.shutdown()
     for key, items in a64groups.items():
         r, clause, arg = items[0]
         msg = (f"{len(items)} case(s), e.g. DB row `{r['row']}` ({r['cnt']}-register list starting at operand {r['lead'] - 1}): clause {clause} op{arg - 1}; asmjit reports "
